@@ -15,7 +15,7 @@ from vmon import bank, core, inventory, pipeline, structural
 
 OBSERVERS = ('compose', 'ja3', 'hassh', 'hassh_server', 'fingerprints', 'key_bytes', 'host_key_asdict', 'key_tag',
              'as_json', 'as_markdown', '_asdict', '__str__', '__repr__', 'json.dumps')
-PER_CLASS = {'quick': 3, 'thorough': 40}
+PER_CLASS = {'quick': 3, 'thorough': 120}
 
 
 def observers_of(obj):
